@@ -24,7 +24,7 @@ RULE = ("cases: constructor-built plog models of every class of the JSON class m
         "ExactlyOne, XNor, Imply, Not, variable leaves incl. integer bounds, bare strings), nested to depth 4, explicit and generated ids, and "
         "configurators with defaulted Any/Xor; to_json -> json.dumps -> json.loads -> from_json. non-trivial: depth>=2; distinct by recipe digest"
         ' Also: defaults outside the alternatives, defaulted rules nested under plain connectives, implications whose condition is a threshold over one leaf.')
-BUDGET = {"quick": (12, 220, 90), "thorough": (16, 2500, 1200)}
+BUDGET = {"quick": (12, 660, 90), "thorough": (16, 2500, 1200)}
 CLASSES = ["All", "Any", "AtLeast", "AtMost", "Xor", "ExactlyOne", "XNor", "Imply", "Not", "ccAny", "ccXor", "Stingy"]
 PYTEST = True     # thorough tier also runs the repository's own tests under these monitors
 MANDATORY = ["judged:defaults-kept", "judged:same-leaves", "judged:same-truth", "judged:explicit-ids-kept", "judged:no-id-for-generated", "judged:config:default-prios",
